@@ -1,89 +1,48 @@
 import CalicoVerif.Proofs.C23
 /-!
 C23 — IPAM garbage collection never frees an address that is still in use.
-Property theorems over the model `Model/C23.lean`, for EVERY collector state,
-cluster state (pods in cache / API, nodes) and clock value — i.e. for whatever
-history of block updates, pod/node churn, time advance and earlier syncs
-produced that state.
+Property theorems over the model `Model/C23.lean`.  Every conclusion is about the INPUT state of the
+function concerned or about the state AT THE MOMENT of the call (`releaseTrace`), never about an
+existentially chosen state.
 
-* `gc_release_justified` — every address in a `ReleaseIPs` call of a sync failed the FINAL
-  re-validation against the cluster state at that moment, is a confirmed leak, is released with
-  the sequence number the collector tracks for it, and every tracked allocation sharing its
-  handle is a confirmed leak too.
-* `confirm_needs_grace_or_dead_node` — a pod allocation only BECOMES a confirmed leak when it is
-  invalid and either its Kubernetes node is gone or it has been a candidate for longer than a
-  positive grace period (never on first sight).
-* `valid_is_never_confirmed` — an allocation found valid by `checkAllocations` is reset (not a leak).
-* `block_release_guarded` — every `ReleaseBlockAffinity` is for a block the collector holds as empty,
-  whose node has at least two blocks in `blocksByNode`, after a positive grace period measured
-  from an earlier observation (two observations).
-* `reachable_idx` / `idx_step` — store/index consistency: in every reachable state `blocksByNode[n]` is
-  exactly (and without duplicates) the set of blocks whose latest seen affinity is `n`, and every
-  empty-block entry names its block's node; proved over `onBlockUpdated`, `forgetBlock` and every
-  other step (the allocation-side functions do not touch these indexes).
-* `never_last_block` / `sync_never_last_block` — FULL strength since the repair of `onBlockUpdated`
-  (/repo 361e296): whenever a sync releases the affinity of block `b` of `node`, the blocks seen hold
-  ANOTHER block whose latest affinity is `node`.  (Before the repair this was false: the index kept
-  a block whose affinity had moved straight to another host; `last_block_history_fixed` is the old
-  counterexample history, which now releases nothing; the harness oracle keeps the signature
-  `last-block-stale-index` and corpus/C23/last-block.ops so a regression is reported.)
-* `handle_all_or_none`: proved as the per-address guard inside `gc_release_justified` (all allocations
-  sharing the handle are confirmed leaks when the address is selected).  At BATCH level it is false and
-  order dependent: `handle_split_witness` (same state, two visiting orders of `confirmedLeaks`, different
-  batches); settled on the real code by the harness's order-parametric probe (KNOWN-FINDING sig=handle-split).
+IP releases
+* `gc_release_justified` — every item of a `ReleaseIPs` call of `garbageCollectKnownLeaks s` is a tracked
+  allocation OF `s`, released with its tracked sequence number, which is a confirmed leak and fails the
+  final re-validation against `s.env`.  `sync_release_justified`: the same for a whole `syncIPAM`, about the
+  state `checkAllocations` leaves.
+* `handle_all_confirmed_partial` — every allocation of `s` sharing a released address's handle is a
+  confirmed leak.  PARTIAL w.r.t. "all of a handle's addresses together or none": at batch level that is
+  false and order dependent — `handle_split_witness` (reproduced on the real code, KNOWN-FINDING handle-split).
+* `confirm_needs_grace_or_dead_node_partial` — `checkOne` turns a pod allocation into a confirmed leak only
+  when it is invalid and its node is gone or a positive grace period has elapsed since it became a
+  candidate.  PARTIAL: a statement about `checkOne` for arbitrary `knode`/`exists`; it is NOT lifted to
+  `checkNode`/`checkAllocations`/whole histories (no invariant "confirmed ⇒ node gone ∨ grace elapsed" is
+  proved), and nothing is proved about the confirmation of TUNNEL addresses (`checkNode`'s dead-node branch).
+  `valid_is_never_confirmed` is a one-branch lemma about `checkOne`.
+
+Block affinity releases (`releaseTrace` = the state at the moment of each call; `block_calls_eq_trace`)
+* `block_release_guarded` — at each release: `emptyBlocks[b] = node`, `blocksByNode[node]` has ≥ 2 blocks,
+  and a positive grace period has elapsed since an EARLIER sync first saw the block empty.  (That an
+  `emptyBlocks` entry means "no allocation of the block is tracked" is not proved.)
+* `reachable_idx`/`idx_step` — `blocksByNode[n]` is exactly the duplicate-free set of blocks with
+  `nodesByBlock[b] = n`, and `emptyBlocks` entries name their block's node, in every reachable state.
+* `never_last_block_index` — at each release another block `b'` has `nodesByBlock[b'] = node` (all reachable states).
+* `never_last_block_partial` — w.r.t. the blocks SEEN (`seen`, a ghost field = latest host affinity delivered
+  for each block): at each release another block's latest seen affinity is `node`, PROVIDED no block update
+  so far carried a non-`host:` affinity (`NoOther`; `reachable_tracks_partial`).  Without that proviso it is
+  FALSE of the current code: `onBlockUpdated` ignores a `virtual:` affinity and leaves `nodesByBlock` /
+  `blocksByNode` stale — `last_block_released_witness_virtual` (reproduced on the real controller,
+  corpus/C23/last-block-virtual.ops, oracle signature `last-block-stale-index`).
 -/
 namespace CalicoVerif.C23
 
-/-! ### ReleaseIPs is justified -/
+/-! ### ReleaseIPs -/
 
-/-- what `garbageCollectKnownLeaks` has established about an allocation it is about to release,
-in the collector state `s'` at the moment it was selected -/
-structure Justified (env : Env) (s' : St) (a : Alloc) : Prop where
-  tracked : a ∈ s'.allocs
-  sameEnv : s'.env = env
-  finalCheck : isValid env a a.knode.isNone = false
-  confirmed : a.confirmed = true
-  handle : ∀ b ∈ s'.allocs, b.handle = a.handle → b.confirmed = true
-
-theorem mem_of_find? {p : Alloc → Bool} {l : List Alloc} {a : Alloc} (h : l.find? p = some a) : a ∈ l :=
-  List.mem_of_find?_eq_some h
-
-theorem gcSelect_justified (s : St) (ids : List Id) :
-    ∀ a ∈ (gcSelect s ids).2, ∃ s', Justified s.env s' a := by
-  induction ids generalizing s with
-  | nil => intro a ha; simp [gcSelect] at ha
-  | cons id ids ih =>
-    intro a ha
-    simp only [gcSelect] at ha
-    cases hf : s.allocs.find? (fun x => x.id == id) with
-    | none => simp only [hf] at ha; exact ih _ a ha
-    | some a0 =>
-      simp only [hf] at ha
-      by_cases hv : isValid s.env a0 a0.knode.isNone = true
-      · simp only [hv, if_true] at ha
-        exact ih { s with leaks := s.leaks.filter (· != id),
-                          allocs := s.allocs.map (fun x => if x.id == id then x.markValid else x) } a ha
-      · simp only [hv] at ha
-        by_cases hh : handleConfirmed s a0.handle = true
-        · simp only [hh, Bool.not_true, Bool.false_eq_true, if_false] at ha
-          rcases List.mem_cons.1 ha with rfl | ha
-          · have hm := mem_of_find? hf
-            have hall : ∀ b ∈ s.allocs, b.handle = a.handle → b.confirmed = true := by
-              intro b hb hbh
-              simp only [handleConfirmed, Bool.and_eq_true, List.all_eq_true, List.mem_filter, beq_iff_eq, and_imp] at hh
-              exact hh.2 b hb hbh
-            exact ⟨s, hm, rfl, by simpa using hv, hall a hm rfl, hall⟩
-          · exact ih _ a ha
-        · simp only [hh, Bool.not_false, if_true] at ha
-          exact ih _ a ha
-
-/-- **gc_release_justified.** Every (block, ordinal, handle, sequence number) passed to `ReleaseIPs`
-by a sync is a tracked allocation that, at the moment it was selected, failed the final
-re-validation against the current cluster state, is a confirmed leak, carries the tracked sequence
-number, and shares its handle only with confirmed leaks. -/
-theorem gc_release_justified (s : St) (batch : List (Nat × Nat × Nat × Nat))
+theorem gc_items (s : St) (batch : List (Nat × Nat × Nat × Nat))
     (h : Call.releaseIPs batch ∈ (garbageCollectKnownLeaks s).2) :
-    ∀ x ∈ batch, ∃ a s', Justified s.env s' a ∧ x = (a.block, a.ord, a.handle, a.seq) := by
+    ∀ x ∈ batch, ∃ a ∈ s.allocs, x = (a.block, a.ord, a.handle, a.seq) ∧
+      isValid s.env a a.knode.isNone = false ∧ a.confirmed = true ∧
+      ∀ c ∈ s.allocs, c.handle = a.handle → c.confirmed = true := by
   intro x hx
   unfold garbageCollectKnownLeaks at h
   by_cases he : (gcSelect s s.leaks).2.isEmpty = true
@@ -93,55 +52,58 @@ theorem gc_release_justified (s : St) (batch : List (Nat × Nat × Nat × Nat))
     subst h
     simp only [List.mem_map] at hx
     obtain ⟨a, ha, rfl⟩ := hx
-    obtain ⟨s', hj⟩ := gcSelect_justified s s.leaks a ha
-    exact ⟨a, s', hj, rfl⟩
+    obtain ⟨h1, h2, h3, h4⟩ := gcSelect_input s [] s s.leaks rfl (by rw [show mv [] = id from funext mv_nil]; simp) a ha
+    exact ⟨a, h1, rfl, h2, h3, h4⟩
 
-/-- the ReleaseIPs calls of a whole `syncIPAM` are those of its `garbageCollectKnownLeaks` step, run
-on the state `checkAllocations` left (same cluster facts, same clock). -/
+/-- **gc_release_justified.** Every (block, ordinal, handle, sequence number) that `garbageCollectKnownLeaks s`
+passes to `ReleaseIPs` is an allocation tracked in `s`, with the sequence number tracked for it, that is a
+confirmed leak and FAILS the final re-validation against the cluster state `s.env` (informer cache when the
+hosting node is unknown, API otherwise). -/
+theorem gc_release_justified (s : St) (batch : List (Nat × Nat × Nat × Nat))
+    (h : Call.releaseIPs batch ∈ (garbageCollectKnownLeaks s).2) :
+    ∀ x ∈ batch, ∃ a ∈ s.allocs, x = (a.block, a.ord, a.handle, a.seq) ∧
+      isValid s.env a a.knode.isNone = false ∧ a.confirmed = true := by
+  intro x hx
+  obtain ⟨a, ha, e, h1, h2, _⟩ := gc_items s batch h x hx
+  exact ⟨a, ha, e, h1, h2⟩
+
+/-- **handle guard (partial).** Every allocation tracked in `s` that shares the handle of a released address is a
+confirmed leak (before any resurrection of this pass).  This is NOT "all of the handle's addresses are in the
+batch": see `handle_split_witness`. -/
+theorem handle_all_confirmed_partial (s : St) (batch : List (Nat × Nat × Nat × Nat))
+    (h : Call.releaseIPs batch ∈ (garbageCollectKnownLeaks s).2) :
+    ∀ x ∈ batch, ∀ c ∈ s.allocs, c.handle = x.2.2.1 → c.confirmed = true := by
+  intro x hx c hc hch
+  obtain ⟨a, _, e, _, _, h4⟩ := gc_items s batch h x hx
+  subst e
+  exact h4 c hc hch
+
+theorem loop_only_rba (st : St) (l : List (Nat × Nat)) :
+    ∀ c ∈ (releaseUnusedLoop st l).2, ∃ b n, c = Call.releaseBlockAffinity b n := by
+  rw [loop_calls_eq_trace]
+  intro c hc
+  simp only [List.mem_map] at hc
+  obtain ⟨t, _, rfl⟩ := hc
+  exact ⟨_, _, rfl⟩
+
+/-- the `ReleaseIPs` calls of a whole `syncIPAM s` are those of `garbageCollectKnownLeaks` run on the state
+`checkAllocations s` leaves; every item is justified in THAT state. -/
 theorem sync_release_justified (s : St) (batch : List (Nat × Nat × Nat × Nat))
     (h : Call.releaseIPs batch ∈ (syncIPAM s).2.1) :
-    ∀ x ∈ batch, ∃ a s', Justified (checkAllocations s).1.env s' a ∧ x = (a.block, a.ord, a.handle, a.seq) := by
+    ∀ x ∈ batch, ∃ a ∈ (checkAllocations s).1.allocs, x = (a.block, a.ord, a.handle, a.seq) ∧
+      isValid (checkAllocations s).1.env a a.knode.isNone = false ∧ a.confirmed = true := by
   unfold syncIPAM at h
   by_cases hi : s.inSync = true
   · simp only [hi, Bool.not_true, Bool.false_eq_true, if_false, List.mem_append, List.mem_map] at h
     rcases h with (h | h) | ⟨n, _, h⟩
     · exact gc_release_justified _ batch h
-    · exfalso
-      -- releaseUnusedBlocks only issues ReleaseBlockAffinity calls
-      have : ∀ (st : St) (l : List (Nat × Nat)), ∀ c ∈ (releaseUnusedLoop st l).2, ∃ b n, c = Call.releaseBlockAffinity b n := by
-        intro st l
-        induction l generalizing st with
-        | nil => intro c hc; simp [releaseUnusedLoop] at hc
-        | cons bn rest ih =>
-          obtain ⟨b, nd⟩ := bn
-          intro c hc
-          simp only [releaseUnusedLoop] at hc
-          split at hc
-          · exact ih _ c hc
-          · split at hc
-            · exact ih _ c hc
-            · split at hc
-              · exact ih _ c hc
-              · split at hc
-                · exact ih _ c hc
-                · split at hc
-                  · exact ih _ c hc
-                  · rcases List.mem_cons.1 hc with rfl | hc
-                    · exact ⟨b, nd, rfl⟩
-                    · exact ih _ c hc
-      obtain ⟨b, n, hbn⟩ := this _ _ _ h
-      cases hbn
+    · obtain ⟨b, n, hbn⟩ := loop_only_rba _ _ _ h; cases hbn
     · cases h
   · simp [hi] at h
 
-/-! ### becoming a confirmed leak -/
+/-! ### becoming a confirmed leak (about `checkOne` only) -/
 
-/-- **confirm_needs_grace_or_dead_node.** `checkAllocations` turns an allocation into a confirmed
-leak only if it is a pod address that is INVALID against the informer cache and either its
-Kubernetes node does not exist, or a positive grace period `g` is configured and the allocation has
-been a leak candidate since a time `t` with `now - t > g` — in particular never on the sync that
-first sees it as a candidate. -/
-theorem confirm_needs_grace_or_dead_node (s : St) (knode : Option Nat) (ex : Bool) (a0 : Alloc)
+theorem confirm_needs_grace_or_dead_node_partial (s : St) (knode : Option Nat) (ex : Bool) (a0 : Alloc)
     (h0 : a0.confirmed = false) (h1 : (checkOne s knode ex a0).a.confirmed = true) :
     a0.kind = .pod ∧ isValid s.env { a0 with knode := knode } true = false ∧
     (ex = false ∨ ∃ g t, s.grace = some g ∧ 0 < g ∧ a0.leakedAt = some t ∧ s.now - t > g) := by
@@ -188,14 +150,7 @@ theorem valid_is_never_confirmed (s : St) (knode : Option Nat) (ex : Bool) (a0 :
   simp only at hv
   simp [checkOne, hv, Alloc.markValid]
 
-/-! ### block affinity release -/
-
-/-- what `releaseUnusedBlocks` has established when it releases block `b` of `node`, in the state `st`
-at that moment -/
-structure BlockGuard (st : St) (b node : Nat) : Prop where
-  empty : st.emptyBlocks.get b = some node ∨ (st.emptyBlocks.get b).isSome
-  twoBlocks : 2 ≤ ((st.blocksByNode.get node).getD []).length
-  grace : ∃ g t, st.grace = some g ∧ 0 < g ∧ st.tracker.get b = some t ∧ st.now - t > g
+/-! ### block affinity releases -/
 
 theorem markEmpty_true {s s' : St} {b : Nat} (h : markEmpty s b = (s', true)) :
     s' = s ∧ ∃ g t, s.grace = some g ∧ 0 < g ∧ s.tracker.get b = some t ∧ s.now - t > g := by
@@ -213,45 +168,30 @@ theorem markEmpty_true {s s' : St} {b : Nat} (h : markEmpty s b = (s', true)) :
         exact ⟨h.1.symm, g, t, rfl, hp, rfl, h.2⟩
     · simp [hp] at h
 
-/-- **block_release_guarded.** Every `ReleaseBlockAffinity(b, node)` of `releaseUnusedBlocks` happens in a
-state where the collector holds `b` as empty, `blocksByNode[node]` has at least two blocks, and a
-positive grace period has elapsed since an EARLIER sync first saw the block empty. -/
-theorem block_release_guarded (st : St) (l : List (Nat × Nat)) :
-    ∀ b node, Call.releaseBlockAffinity b node ∈ (releaseUnusedLoop st l).2 → ∃ st', BlockGuard st' b node := by
-  induction l generalizing st with
-  | nil => intro b node h; simp [releaseUnusedLoop] at h
-  | cons bn rest ih =>
-    obtain ⟨b0, n0⟩ := bn
-    intro b node h
-    simp only [releaseUnusedLoop] at h
-    by_cases h1 : (st.emptyBlocks.get b0).isNone = true
-    · simp only [h1, if_true] at h; exact ih _ b node h
-    · simp only [h1] at h
-      by_cases h2 : ((st.blocksByNode.get n0).getD []).length ≤ 1
-      · simp only [h2, if_true] at h; exact ih _ b node h
-      · simp only [h2] at h
-        by_cases h3 : (st.cnodes.get n0 == some none) = true
-        · simp only [h3, if_true] at h; exact ih _ b node h
-        · simp only [h3] at h
-          cases hm : markEmpty st b0 with
-          | mk st1 ok =>
-            simp only [hm] at h
-            cases ok with
-            | false => simp only [Bool.not_false, if_true] at h; exact ih _ b node h
-            | true =>
-              simp only [Bool.not_true, Bool.false_eq_true, if_false] at h
-              by_cases h5 : st1.allBlocks.contains b0 = true
-              · simp only [h5, Bool.not_true, Bool.false_eq_true, if_false] at h
-                rcases List.mem_cons.1 h with heq | h
-                · cases heq
-                  obtain ⟨rfl, hg⟩ := markEmpty_true hm
-                  refine ⟨st1, ⟨Or.inr ?_, by omega, hg⟩⟩
-                  cases hh : st1.emptyBlocks.get b0 <;> simp_all
-                · exact ih _ b node h
-              · simp only [h5] at h
-                exact ih _ b node h
+/-- what holds in the state `st` AT THE MOMENT block `b` of `node` has its affinity released -/
+structure BlockGuard (st : St) (b node : Nat) : Prop where
+  empty : st.emptyBlocks.get b = some node
+  twoBlocks : 2 ≤ ((st.blocksByNode.get node).getD []).length
+  grace : ∃ g t, st.grace = some g ∧ 0 < g ∧ st.tracker.get b = some t ∧ st.now - t > g
 
-/-! ### index consistency and the full `never_last_block` -/
+/-- the list `releaseUnusedBlocks` iterates is consistent with `emptyBlocks` -/
+def ListOK (st : St) (l : List (Nat × Nat)) : Prop :=
+  ∀ bn ∈ l, st.emptyBlocks.get bn.1 = some bn.2 ∨ st.emptyBlocks.get bn.1 = none
+
+theorem forgetBlock_empty (s : St) (b : Nat) : (forgetBlock s b).emptyBlocks = s.emptyBlocks.del b := by
+  unfold forgetBlock
+  simp only
+  rw [(fr_releaseAll s _).2.2.1]
+
+theorem fr_markEmpty (s : St) (b : Nat) : Fr s (markEmpty s b).1 := by
+  unfold markEmpty
+  split
+  · split
+    · split
+      · exact ⟨rfl, rfl, rfl, rfl⟩
+      · exact Fr.refl s
+    · exact Fr.refl s
+  · exact Fr.refl s
 
 theorem exists_other {l : List Nat} (hn : l.Nodup) (h2 : 2 ≤ l.length) (b : Nat) : ∃ x ∈ l, x ≠ b := by
   match l, hn, h2 with
@@ -265,90 +205,99 @@ theorem exists_other {l : List Nat} (hn : l.Nodup) (h2 : 2 ≤ l.length) (b : Na
       rw [ha, ← hc]; simp
     · exact ⟨a, by simp, ha⟩
 
-theorem fr_markEmpty (s : St) (b : Nat) : Fr s (markEmpty s b).1 := by
-  unfold markEmpty
-  split
-  · split
-    · split
-      · exact ⟨rfl, rfl, rfl⟩
-      · exact Fr.refl s
-    · exact Fr.refl s
-  · exact Fr.refl s
+/-- the indexes agree with the blocks SEEN -/
+def Tracks (s : St) : Prop := ∀ b, s.nodesByBlock.get b = s.seen.get b
 
-theorem forgetBlock_empty (s : St) (b : Nat) : (forgetBlock s b).emptyBlocks = s.emptyBlocks.del b := by
-  unfold forgetBlock
-  simp only
-  rw [(fr_releaseAll s _).2.2]
-
-/-- what holds, in the state `st` at that moment, when block `b` of `node` has its affinity released:
-the indexes are consistent, `b` is an empty block of `node`, and `node` has ANOTHER block. -/
+/-- at the moment of the release, `node` has another block -/
 structure NotLast (st : St) (b node : Nat) : Prop where
-  idx : Idx st
-  isEmpty : st.emptyBlocks.get b = some node
   mine : st.nodesByBlock.get b = some node
   other : ∃ b', b' ≠ b ∧ st.nodesByBlock.get b' = some node
 
-theorem loop_never_last (st : St) (l : List (Nat × Nat)) (hI : Idx st)
-    (hl : ∀ bn ∈ l, st.emptyBlocks.get bn.1 = some bn.2 ∨ st.emptyBlocks.get bn.1 = none) :
-    Idx (releaseUnusedLoop st l).1 ∧
-    ∀ b node, Call.releaseBlockAffinity b node ∈ (releaseUnusedLoop st l).2 → ∃ st', NotLast st' b node := by
+theorem tracks_forgetBlock {s : St} (h : Tracks s) (b : Nat) : Tracks (forgetBlock s b) := by
+  intro x
+  have f := fr_releaseAll s (s.allocs.filter (fun a => a.block == b))
+  show ((releaseAll s _).nodesByBlock.del b).get x = ((releaseAll s _).seen.del b).get x
+  rw [f.1, f.2.2.2, AMap.get_del, AMap.get_del, h x]
+
+theorem tracks_of_fr {s s' : St} (h : Tracks s) (f : Fr s s') : Tracks s' := by
+  intro x; rw [f.1, f.2.2.2]; exact h x
+
+/-- the whole loop: every at-release state satisfies the guard; with consistent indexes the released block
+is never the node's only one; index consistency and agreement with the blocks seen survive the loop. -/
+theorem trace_spec (st : St) (l : List (Nat × Nat)) (hl : ListOK st l) :
+    (∀ t ∈ releaseTrace st l, BlockGuard t.1 t.2.1 t.2.2) ∧
+    (Idx st → Idx (releaseUnusedLoop st l).1 ∧ ∀ t ∈ releaseTrace st l, Idx t.1 ∧ NotLast t.1 t.2.1 t.2.2) ∧
+    (Tracks st → Tracks (releaseUnusedLoop st l).1 ∧ ∀ t ∈ releaseTrace st l, Tracks t.1) := by
   induction l generalizing st with
-  | nil => exact ⟨hI, fun b node h => by simp [releaseUnusedLoop] at h⟩
+  | nil => exact ⟨fun t h => by simp [releaseTrace] at h, fun hI => ⟨hI, fun t h => by simp [releaseTrace] at h⟩,
+      fun hT => ⟨hT, fun t h => by simp [releaseTrace] at h⟩⟩
   | cons bn rest ih =>
     obtain ⟨b0, n0⟩ := bn
-    have hrest : ∀ bn ∈ rest, st.emptyBlocks.get bn.1 = some bn.2 ∨ st.emptyBlocks.get bn.1 = none :=
-      fun bn h => hl bn (List.mem_cons_of_mem _ h)
-    simp only [releaseUnusedLoop]
+    have hrest : ListOK st rest := fun bn h => hl bn (List.mem_cons_of_mem _ h)
+    simp only [releaseUnusedLoop, releaseTrace]
     by_cases h1 : (st.emptyBlocks.get b0).isNone = true
-    · simp only [h1, if_true]; exact ih st hI hrest
+    · simp only [h1, if_true]; exact ih st hrest
     · simp only [h1]
       by_cases h2 : ((st.blocksByNode.get n0).getD []).length ≤ 1
-      · simp only [h2, if_true]; exact ih st hI hrest
+      · simp only [h2, if_true]; exact ih st hrest
       · simp only [h2]
         by_cases h3 : (st.cnodes.get n0 == some none) = true
         · simp only [h3, if_true]
-          exact ih { st with tracker := st.tracker.del b0 } hI hrest
+          exact ih { st with tracker := st.tracker.del b0 } hrest
         · simp only [h3]
           have fm := fr_markEmpty st b0
           cases hm : markEmpty st b0 with
           | mk st1 ok =>
             rw [hm] at fm
             simp only
-            have hI1 : Idx st1 := hI.of_fr fm
-            have hrest1 : ∀ bn ∈ rest, st1.emptyBlocks.get bn.1 = some bn.2 ∨ st1.emptyBlocks.get bn.1 = none := by
-              intro bn h; rw [fm.2.2]; exact hrest bn h
+            have hrest1 : ListOK st1 rest := by
+              intro bn h; rw [fm.2.2.1]; exact hrest bn h
+            have lift1 : ∀ {P : Prop}, ((∀ t ∈ releaseTrace st1 rest, BlockGuard t.1 t.2.1 t.2.2) ∧
+                (Idx st1 → Idx (releaseUnusedLoop st1 rest).1 ∧ ∀ t ∈ releaseTrace st1 rest, Idx t.1 ∧ NotLast t.1 t.2.1 t.2.2) ∧
+                (Tracks st1 → Tracks (releaseUnusedLoop st1 rest).1 ∧ ∀ t ∈ releaseTrace st1 rest, Tracks t.1) → P) → P :=
+              fun k => k (ih st1 hrest1)
             cases ok with
-            | false => simp only [Bool.not_false, if_true]; exact ih st1 hI1 hrest1
+            | false =>
+              simp only [Bool.not_false, if_true]
+              obtain ⟨a, b, c⟩ := ih st1 hrest1
+              exact ⟨a, fun hI => b (hI.of_fr fm), fun hT => c (tracks_of_fr hT fm)⟩
             | true =>
               simp only [Bool.not_true, Bool.false_eq_true, if_false]
               by_cases h5 : st1.allBlocks.contains b0 = true
               · simp only [h5, Bool.not_true, Bool.false_eq_true, if_false]
-                have hI2 : Idx (forgetBlock st1 b0) := idx_forgetBlock hI1 b0
-                have hrest2 : ∀ bn ∈ rest, (forgetBlock st1 b0).emptyBlocks.get bn.1 = some bn.2 ∨
-                    (forgetBlock st1 b0).emptyBlocks.get bn.1 = none := by
+                have hrest2 : ListOK (forgetBlock st1 b0) rest := by
                   intro bn h
                   rw [forgetBlock_empty, AMap.get_del]
                   by_cases hb : bn.1 = b0
                   · simp [hb]
                   · simp only [hb, if_false]; exact hrest1 bn h
-                obtain ⟨i1, i2⟩ := ih (forgetBlock st1 b0) hI2 hrest2
-                refine ⟨i1, fun b node h => ?_⟩
-                rcases List.mem_cons.1 h with heq | h
-                · cases heq
-                  -- the state at release time is st1
-                  have hem : st1.emptyBlocks.get b0 = some n0 := by
-                    rw [fm.2.2]
-                    rcases hl (b0, n0) (by simp) with h' | h'
-                    · exact h'
-                    · simp [h'] at h1
-                  have hmine := hI1.empty b0 n0 hem
-                  have hlen : 2 ≤ (blocksOf st1.blocksByNode n0).length := by
-                    unfold blocksOf; rw [fm.2.1]; omega
-                  obtain ⟨b', hb', hne⟩ := exists_other (hI1.nodup n0) hlen b0
-                  exact ⟨st1, hI1, hem, hmine, b', hne, (hI1.mem n0 b').1 hb'⟩
-                · exact i2 b node h
+                obtain ⟨a, b, c⟩ := ih (forgetBlock st1 b0) hrest2
+                obtain ⟨rfl, hg⟩ := markEmpty_true hm
+                have hem : st1.emptyBlocks.get b0 = some n0 := by
+                  rcases hl (b0, n0) (by simp) with h' | h'
+                  · exact h'
+                  · simp [h'] at h1
+                refine ⟨fun t ht => ?_, fun hI => ?_, fun hT => ?_⟩
+                · rcases List.mem_cons.1 ht with rfl | ht
+                  · show BlockGuard st1 b0 n0
+                    exact ⟨hem, by omega, hg⟩
+                  · exact a t ht
+                · obtain ⟨i1, i2⟩ := b (idx_forgetBlock hI b0)
+                  refine ⟨i1, fun t ht => ?_⟩
+                  rcases List.mem_cons.1 ht with rfl | ht
+                  · have hmine := hI.empty b0 n0 hem
+                    have hlen : 2 ≤ (blocksOf st1.blocksByNode n0).length := by unfold blocksOf; omega
+                    obtain ⟨b', hb', hne⟩ := exists_other (hI.nodup n0) hlen b0
+                    exact ⟨hI, hmine, b', hne, (hI.mem n0 b').1 hb'⟩
+                  · exact i2 t ht
+                · obtain ⟨c1, c2⟩ := c (tracks_forgetBlock hT b0)
+                  refine ⟨c1, fun t ht => ?_⟩
+                  rcases List.mem_cons.1 ht with rfl | ht
+                  · exact hT
+                  · exact c2 t ht
               · simp only [h5]
-                exact ih st1 hI1 hrest1
+                obtain ⟨a, b, c⟩ := ih st1 hrest1
+                exact ⟨a, fun hI => b (hI.of_fr fm), fun hT => c (tracks_of_fr hT fm)⟩
 
 theorem mem_sortKV {m : AMap Nat} {bn : Nat × Nat} (h : bn ∈ sortKV m) : m.get bn.1 = some bn.2 := by
   simp only [sortKV, List.mem_filterMap] at h
@@ -357,12 +306,40 @@ theorem mem_sortKV {m : AMap Nat} {bn : Nat × Nat} (h : bn ∈ sortKV m) : m.ge
   | none => simp [hg] at hk
   | some v => simp [hg] at hk; subst hk; exact hg
 
-/-- **never_last_block** (full strength).  In a state with consistent indexes (every reachable state:
-`reachable_idx`), every `ReleaseBlockAffinity(b, node)` issued by `releaseUnusedBlocks` is for an empty
-block of `node` while the blocks seen hold ANOTHER block whose latest affinity is `node`. -/
-theorem never_last_block (st : St) (hI : Idx st) (b node : Nat)
-    (h : Call.releaseBlockAffinity b node ∈ (releaseUnusedBlocks st).2) : ∃ st', NotLast st' b node :=
-  (loop_never_last st _ hI (fun bn hbn => Or.inl (mem_sortKV hbn))).2 b node h
+theorem listOK_sortKV (st : St) : ListOK st (sortKV st.emptyBlocks) := fun _ h => Or.inl (mem_sortKV h)
+
+/-- the `ReleaseBlockAffinity` calls of `releaseUnusedBlocks st` are exactly the entries of the trace, in order:
+each call is made in the recorded state -/
+theorem block_calls_eq_trace (st : St) :
+    (releaseUnusedBlocks st).2 = (releaseTrace st (sortKV st.emptyBlocks)).map (fun t => Call.releaseBlockAffinity t.2.1 t.2.2) :=
+  loop_calls_eq_trace st _
+
+/-- **block_release_guarded.** In the state at the moment of each `ReleaseBlockAffinity(b, node)`:
+`emptyBlocks[b] = node`, `blocksByNode[node]` lists at least two blocks, and a positive grace period has elapsed
+since an EARLIER sync first recorded the block as empty. -/
+theorem block_release_guarded (st : St) :
+    ∀ t ∈ releaseTrace st (sortKV st.emptyBlocks), BlockGuard t.1 t.2.1 t.2.2 :=
+  (trace_spec st _ (listOK_sortKV st)).1
+
+/-- **never_last_block w.r.t. the collector's `nodesByBlock`** (every state with consistent indexes, i.e. every
+reachable state): at the moment of each release, `nodesByBlock[b] = node` and ANOTHER block `b'` has
+`nodesByBlock[b'] = node`. -/
+theorem never_last_block_index (st : St) (hI : Idx st) :
+    ∀ t ∈ releaseTrace st (sortKV st.emptyBlocks), NotLast t.1 t.2.1 t.2.2 :=
+  fun t ht => (((trace_spec st _ (listOK_sortKV st)).2.1 hI).2 t ht).2
+
+/-- **never_last_block w.r.t. the blocks SEEN (partial: needs `Tracks`).**  If moreover `nodesByBlock` agrees with
+the latest host affinity seen for every block (`reachable_tracks_partial`: true while no block update carried a
+non-`host:` affinity), then at each release another block's latest seen affinity is `node`. -/
+theorem never_last_block_partial (st : St) (hI : Idx st) (hT : Tracks st) :
+    ∀ t ∈ releaseTrace st (sortKV st.emptyBlocks),
+      t.1.seen.get t.2.1 = some t.2.2 ∧ ∃ b', b' ≠ t.2.1 ∧ t.1.seen.get b' = some t.2.2 := by
+  intro t ht
+  obtain ⟨hm, b', hne, hb'⟩ := never_last_block_index st hI t ht
+  have hTt := ((trace_spec st _ (listOK_sortKV st)).2.2 hT).2 t ht
+  exact ⟨by rw [← hTt]; exact hm, b', hne, by rw [← hTt]; exact hb'⟩
+
+/-! ### the invariants over whole histories -/
 
 theorem idx_syncIPAM {s : St} (hI : Idx s) : Idx (syncIPAM s).1 := by
   unfold syncIPAM
@@ -370,15 +347,28 @@ theorem idx_syncIPAM {s : St} (hI : Idx s) : Idx (syncIPAM s).1 := by
   · simp only [hi, Bool.not_true, Bool.false_eq_true, if_false]
     have h2 : Idx (garbageCollectKnownLeaks (checkAllocations s).1).1 :=
       (hI.of_fr (fr_checkAllocations s)).of_fr (fr_gc _)
-    have h3 := (loop_never_last _ _ h2 (fun bn hbn => Or.inl (mem_sortKV hbn))).1
-    exact Idx.of_fr h3 (fr_foldl _ fr_markClean _ _)
+    exact Idx.of_fr ((trace_spec _ _ (listOK_sortKV _)).2.1 h2).1 (fr_foldl _ fr_markClean _ _)
   · simp only [hi]; exact hI
 
-/-- **store/index consistency is inductive**: every step keeps `blocksByNode`, `nodesByBlock` and
-`emptyBlocks` consistent. -/
+theorem tracks_syncIPAM {s : St} (hT : Tracks s) : Tracks (syncIPAM s).1 := by
+  unfold syncIPAM
+  by_cases hi : s.inSync = true
+  · simp only [hi, Bool.not_true, Bool.false_eq_true, if_false]
+    have h2 : Tracks (garbageCollectKnownLeaks (checkAllocations s).1).1 :=
+      tracks_of_fr (tracks_of_fr hT (fr_checkAllocations s)) (fr_gc _)
+    exact tracks_of_fr ((trace_spec _ _ (listOK_sortKV _)).2.2 h2).1 (fr_foldl _ fr_markClean _ _)
+  · simp only [hi]; exact hT
+
+theorem idx_onBlock {s : St} (hI : Idx s) (b : Nat) (aff : Aff) (es : List Entry) : Idx (onBlock s b aff es) := by
+  cases aff with
+  | host n => exact idx_onBlockUpdated hI b (some n) es
+  | none => exact idx_onBlockUpdated hI b none es
+  | other => exact idx_onBlockOther hI b es
+
+/-- **store/index consistency is inductive** -/
 theorem idx_step {s : St} (hI : Idx s) (op : Op) : Idx (step s op).1 := by
   cases op with
-  | block b aff es => exact idx_onBlockUpdated hI b aff es
+  | block b aff es => exact idx_onBlock hI b aff es
   | blockDel b => exact idx_forgetBlock hI b
   | sync full =>
     simp only [step]
@@ -394,29 +384,14 @@ theorem idx_step {s : St} (hI : Idx s) (op : Op) : Idx (step s op).1 := by
   | podDel id c a => exact hI
   | tick d => exact hI
 
-def runOps (s : St) : List Op → St × List (List Call)
-  | [] => (s, [])
-  | op :: ops =>
-    let r := step s op
-    let r2 := runOps r.1 ops
-    (r2.1, r.2.1 :: r2.2)
-
-theorem idx_runOps {s : St} (hI : Idx s) (ops : List Op) : Idx (runOps s ops).1 := by
-  induction ops generalizing s with
-  | nil => exact hI
-  | cons op ops ih => exact ih (idx_step hI op)
-
-theorem idx_init (g : Option Nat) : Idx { grace := g } :=
-  ⟨fun n b => by simp [blocksOf, AMap.get], fun n => by simp [blocksOf, AMap.get], fun b n h => by simp [AMap.get] at h⟩
-
-/-- every state reachable from a fresh controller has consistent indexes -/
-theorem reachable_idx (g : Option Nat) (ops : List Op) : Idx (runOps { grace := g } ops).1 :=
-  idx_runOps (idx_init g) ops
-
-/-- **never_last_block over a whole sync, from any reachable state**: every `ReleaseBlockAffinity(b, node)`
-of `syncIPAM` leaves `node` another block among the blocks the collector has seen. -/
-theorem sync_never_last_block (s : St) (hI : Idx s) (b node : Nat)
-    (h : Call.releaseBlockAffinity b node ∈ (syncIPAM s).2.1) : ∃ st', NotLast st' b node := by
+/-- **a whole sync, from any state with consistent indexes**: every `ReleaseBlockAffinity(b, node)` of `syncIPAM s`
+is an entry of the release trace of the state `s2` that `checkAllocations` and `garbageCollectKnownLeaks` leave,
+and in the recorded at-release state the guard holds and `node` has another block in `nodesByBlock`. -/
+theorem sync_block_release (s : St) (hI : Idx s) (b node : Nat)
+    (h : Call.releaseBlockAffinity b node ∈ (syncIPAM s).2.1) :
+    ∃ t ∈ releaseTrace (garbageCollectKnownLeaks (checkAllocations s).1).1
+        (sortKV (garbageCollectKnownLeaks (checkAllocations s).1).1.emptyBlocks),
+      t.2 = (b, node) ∧ BlockGuard t.1 b node ∧ NotLast t.1 b node := by
   unfold syncIPAM at h
   by_cases hi : s.inSync = true
   · simp only [hi, Bool.not_true, Bool.false_eq_true, if_false, List.mem_append, List.mem_map] at h
@@ -429,19 +404,134 @@ theorem sync_never_last_block (s : St) (hI : Idx s) (b node : Nat)
       split at h
       · simp at h
       · simp at h
-    · exact never_last_block _ h2 b node h
+    · change Call.releaseBlockAffinity b node ∈ (releaseUnusedBlocks _).2 at h
+      rw [block_calls_eq_trace, List.mem_map] at h
+      obtain ⟨t, ht, he⟩ := h
+      simp only [Call.releaseBlockAffinity.injEq] at he
+      obtain ⟨rfl, rfl⟩ := he
+      exact ⟨t, ht, rfl, block_release_guarded _ t ht, never_last_block_index _ h2 t ht⟩
     · cases h
   · simp [hi] at h
 
-/-- the pre-repair counterexample history: node 1 owns blocks 1 (one tunnel address) and 2 (empty);
-block 1's affinity then moves straight to node 2; two syncs 70 minutes apart (grace 60). -/
-def lastBlockHistory : List Op :=
-  [.inSync, .cnode 1 (some 1), .knode 1 true, .cnode 2 (some 2), .knode 2 true,
-   .block 1 (some 1) [⟨0, some 7, .tunnel, 1, 0, 1⟩], .block 2 (some 1) [],
-   .block 1 (some 2) [⟨0, some 7, .tunnel, 1, 0, 1⟩],
+def runOps (s : St) : List Op → St × List (List Call)
+  | [] => (s, [])
+  | op :: ops =>
+    let r := step s op
+    let r2 := runOps r.1 ops
+    (r2.1, r.2.1 :: r2.2)
+
+theorem idx_init (g : Option Nat) : Idx { grace := g } :=
+  ⟨fun n b => by simp [blocksOf, AMap.get], fun n => by simp [blocksOf, AMap.get], fun b n h => by simp [AMap.get] at h⟩
+
+/-- every state reachable from a fresh controller has consistent indexes -/
+theorem reachable_idx (g : Option Nat) (ops : List Op) : Idx (runOps { grace := g } ops).1 := by
+  have : ∀ (s : St), Idx s → Idx (runOps s ops).1 := by
+    induction ops with
+    | nil => intro s h; exact h
+    | cons op ops ih => intro s h; exact ih _ (idx_step h op)
+  exact this _ (idx_init g)
+
+/-- no block update carries a non-`host:` affinity -/
+def NoOther : List Op → Prop
+  | [] => True
+  | .block _ .other _ :: _ => False
+  | _ :: ops => NoOther ops
+
+theorem nodesByBlock_onBlockUpdated (s : St) (b : Nat) (aff : Option Nat) (es : List Entry) (x : Nat) :
+    (onBlockUpdated s b aff es).nodesByBlock.get x = if x = b then aff else s.nodesByBlock.get x := by
+  unfold onBlockUpdated
+  simp only
+  rw [(fr_releaseAll _ _).1]
+  have f2 := fr_upsertAll (affinityStage s b aff) b es
+  have e3 : (emptyStage (upsertAll (affinityStage s b aff) b es) b es.isEmpty aff).nodesByBlock =
+      (upsertAll (affinityStage s b aff) b es).nodesByBlock := by
+    unfold emptyStage; cases aff with
+    | none => rfl
+    | some n => simp only; split <;> rfl
+  rw [e3, f2.1]
+  cases aff with
+  | some n => simp only [affinityStage]; rw [AMap.get_set]
+  | none =>
+    simp only [affinityStage]
+    cases hg : s.nodesByBlock.get b with
+    | some n' => simp only; rw [AMap.get_del]
+    | none =>
+      simp only
+      by_cases hx : x = b
+      · subst hx; simp [hg]
+      · simp [hx]
+
+theorem tracks_step {s : St} (hT : Tracks s) (op : Op) (hop : NoOther [op]) : Tracks (step s op).1 := by
+  cases op with
+  | block b aff es =>
+    cases aff with
+    | host n =>
+      intro x
+      show (onBlockUpdated s b (some n) es).nodesByBlock.get x = (s.seen.set b n).get x
+      rw [nodesByBlock_onBlockUpdated, AMap.get_set, hT x]
+    | none =>
+      intro x
+      show (onBlockUpdated s b none es).nodesByBlock.get x = (s.seen.del b).get x
+      rw [nodesByBlock_onBlockUpdated, AMap.get_del, hT x]
+    | other => exact hop.elim
+  | blockDel b => exact tracks_forgetBlock hT b
+  | sync full =>
+    simp only [step]
+    cases full with
+    | true => exact tracks_syncIPAM (s := { s with fullSync := true }) hT
+    | false => exact tracks_syncIPAM hT
+  | dirty n => exact tracks_of_fr hT (fr_markDirty s n)
+  | inSync => exact hT
+  | cnode n k => exact hT
+  | cnodeDel n => exact hT
+  | knode n p => exact hT
+  | pod id c a p => exact hT
+  | podDel id c a => exact hT
+  | tick d => exact hT
+
+theorem noOther_cons {op : Op} {ops : List Op} (h : NoOther (op :: ops)) : NoOther [op] ∧ NoOther ops := by
+  cases op with
+  | block b aff es => cases aff <;> simp_all [NoOther]
+  | _ => simp_all [NoOther]
+
+/-- **partial: the indexes agree with the blocks seen as long as no block update carried a non-`host:` affinity** -/
+theorem reachable_tracks_partial (g : Option Nat) (ops : List Op) (h : NoOther ops) : Tracks (runOps { grace := g } ops).1 := by
+  have : ∀ (s : St), Tracks s → NoOther ops → Tracks (runOps s ops).1 := by
+    induction ops with
+    | nil => intro s h _; exact h
+    | cons op ops ih =>
+      intro s hT hn
+      obtain ⟨h1, h2⟩ := noOther_cons hn
+      exact ih h2 _ (tracks_step hT op h1) h2
+  exact this _ (fun b => by simp [AMap.get]) h
+
+/-! ### `never_last_block` w.r.t. the blocks seen is FALSE when a block's affinity becomes non-host -/
+
+/-- node 1 owns blocks 1 (one tunnel address) and 2 (empty); block 1 is then seen with a `virtual:` affinity
+(not a host affinity: node 1 no longer owns it); two syncs 70 minutes apart (grace 60). -/
+def lastBlockVirtualHistory : List Op :=
+  [.inSync, .cnode 1 (some 1), .knode 1 true,
+   .block 1 (.host 1) [⟨0, some 7, .tunnel, 1, 0, 1⟩], .block 2 (.host 1) [],
+   .block 1 .other [⟨0, some 7, .tunnel, 1, 0, 1⟩],
    .sync true, .tick 70, .sync true]
 
-/-- with the repaired `onBlockUpdated` that history releases nothing, and node 1's index holds only block 2 -/
+/-- **Witness.** The collector releases the affinity of block 2 — the ONLY block whose latest seen affinity is
+node 1 — because `onBlockUpdated` left `nodesByBlock[1] = 1` / `blocksByNode[1] ∋ 1` untouched when block 1
+arrived with a non-`host:` affinity. -/
+theorem last_block_released_witness_virtual :
+    let r := runOps { grace := some 60 } lastBlockVirtualHistory
+    r.2.getLast? = some [Call.releaseBlockAffinity 2 1] ∧
+    r.1.seen = [] ∧                       -- no block seen is affine to node 1 any more
+    r.1.nodesByBlock = [(1, 1)] := by     -- yet the index still says block 1 belongs to node 1
+  decide +kernel
+
+/-- the host→host history that was a counterexample before /repo 361e296 now releases nothing -/
+def lastBlockHistory : List Op :=
+  [.inSync, .cnode 1 (some 1), .knode 1 true, .cnode 2 (some 2), .knode 2 true,
+   .block 1 (.host 1) [⟨0, some 7, .tunnel, 1, 0, 1⟩], .block 2 (.host 1) [],
+   .block 1 (.host 2) [⟨0, some 7, .tunnel, 1, 0, 1⟩],
+   .sync true, .tick 70, .sync true]
+
 theorem last_block_history_fixed :
     let r := runOps { grace := some 60 } lastBlockHistory
     r.2.getLast? = some [] ∧ r.1.blocksByNode.get 1 = some [2] ∧ r.1.blocksByNode.get 2 = some [1] := by
@@ -453,7 +543,7 @@ theorem last_block_history_fixed :
 reports only address 1.1; both addresses become candidates, then (70 min later, grace 60) confirmed leaks. -/
 def handleSplitHistory : List Op :=
   [.inSync, .cnode 1 (some 1), .knode 1 true,
-   .block 1 (some 1) [⟨0, some 4, .pod, 1, 4, 1⟩, ⟨1, some 4, .pod, 1, 4, 2⟩],
+   .block 1 (.host 1) [⟨0, some 4, .pod, 1, 4, 1⟩, ⟨1, some 4, .pod, 1, 4, 2⟩],
    .pod 4 false true ⟨1, [(1, 1)], false⟩, .sync false, .tick 70]
 
 /-- **Witness: `handle_all_or_none` is false at batch level and depends on the order in which
@@ -468,12 +558,13 @@ theorem handle_split_witness :
     ((gcSelect s [(4, 1, 1), (4, 1, 0)]).2.map (fun a => (a.block, a.ord))) = [] := by
   decide +kernel
 
+
 /-! ### non-vacuity -/
 
 /-- a pod address whose pod is gone from cache and API, on an existing node, grace 60 min:
 candidate at the first sync, released (with its sequence number) at the sync 70 minutes later -/
 def leakHistory : List Op :=
-  [.inSync, .cnode 1 (some 1), .knode 1 true, .block 1 (some 1) [⟨3, some 4, .pod, 1, 4, 9⟩],
+  [.inSync, .cnode 1 (some 1), .knode 1 true, .block 1 (.host 1) [⟨3, some 4, .pod, 1, 4, 9⟩],
    .sync false, .tick 70, .sync true]
 
 example : ((runOps { grace := some 60 } leakHistory).2.getLast?) = some [Call.releaseIPs [(1, 3, 4, 9)]] := by
@@ -481,17 +572,17 @@ example : ((runOps { grace := some 60 } leakHistory).2.getLast?) = some [Call.re
 
 /-- … and is NOT released when only 40 minutes have passed, nor when the pod exists with that address -/
 example : ((runOps { grace := some 60 } [.inSync, .cnode 1 (some 1), .knode 1 true,
-    .block 1 (some 1) [⟨3, some 4, .pod, 1, 4, 9⟩], .sync false, .tick 40, .sync true]).2.getLast?) = some [] := by
+    .block 1 (.host 1) [⟨3, some 4, .pod, 1, 4, 9⟩], .sync false, .tick 40, .sync true]).2.getLast?) = some [] := by
   decide +kernel
 
 example : ((runOps { grace := some 60 } [.inSync, .cnode 1 (some 1), .knode 1 true,
     .pod 4 true true ⟨1, [(1, 3)], false⟩,
-    .block 1 (some 1) [⟨3, some 4, .pod, 1, 4, 9⟩], .sync false, .tick 70, .sync true]).2.getLast?) = some [] := by
+    .block 1 (.host 1) [⟨3, some 4, .pod, 1, 4, 9⟩], .sync false, .tick 70, .sync true]).2.getLast?) = some [] := by
   decide +kernel
 
 /-- `block_release_guarded` is not vacuous: a node with one in-use and one empty block has the empty one released -/
 example : ((runOps { grace := some 60 } [.inSync, .cnode 1 (some 1), .knode 1 true,
-    .block 1 (some 1) [⟨0, some 7, .tunnel, 1, 0, 1⟩], .block 2 (some 1) [], .sync true, .tick 70, .sync true]).2.getLast?)
+    .block 1 (.host 1) [⟨0, some 7, .tunnel, 1, 0, 1⟩], .block 2 (.host 1) [], .sync true, .tick 70, .sync true]).2.getLast?)
     = some [Call.releaseBlockAffinity 2 1] := by
   decide +kernel
 
